@@ -93,21 +93,28 @@ func (m *Mon) Futures() []*Fut {
 // nothing can start any more, so "not started" is final. The watchdog only yields "inconclusive".
 // It returns (final, lostWork): lostWork is the logical state pending>0 with no worker, which is final too.
 func Drain(watchdog time.Duration) (final bool, lost string) {
+	// the watchdog measures the time without any change of (workers, pending): a starved process that
+	// still makes progress is waited for, only a state that does not move at all is given up on
+	lastW, lastP := -1, -1
 	deadline := time.Now().Add(watchdog)
 	for {
 		w, p := timeout.VerifState()
 		if p > 0 && w == 0 {
-			// confirm (the state is read under the package lock, so it is exact)
+			// the state is read under the package lock, so it is exact
 			return true, fmt.Sprintf("%d futures pending and no worker alive", p)
 		}
 		if p == 0 && w == 0 {
 			return true, ""
 		}
+		if w != lastW || p != lastP {
+			lastW, lastP = w, p
+			deadline = time.Now().Add(watchdog)
+		}
 		if time.Now().After(deadline) {
 			if p == 0 {
 				return false, fmt.Sprintf("NO-WIND-DOWN workers=%d pending=0 when the watchdog fired", w)
 			}
-			return false, fmt.Sprintf("workers=%d pending=%d when the watchdog fired", w, p)
+			return false, fmt.Sprintf("workers=%d pending=%d unchanged for %v when the watchdog fired", w, p, watchdog)
 		}
 		time.Sleep(2 * time.Millisecond)
 	}
